@@ -38,7 +38,12 @@ def build(case, steps=None, rel=None):
     kind = case["kind"]
     if kind == "fh":
         kind = "list"
-    arg = gen.build_fh(steps, kind)
+    if kind == "range_desc":
+        d = steps[0] - steps[1] if len(steps) > 1 else 1
+        arg = pd.RangeIndex(steps[0], steps[-1] - 1, -d)
+        assert list(arg) == list(steps)
+    else:
+        arg = gen.build_fh(steps, kind)
     return ForecastingHorizon(arg, is_relative=rel)
 
 
@@ -94,7 +99,7 @@ def oracle_conversions(case, ctx):
         # relative horizons need no cutoff for these
         chk("to_indexer_nocutoff", sut(lambda: vals(fh.to_indexer())), [r_ - 1 for r_ in relsteps])
         chk("is_all_oos_nocutoff", sut(lambda: bool(fh.is_all_out_of_sample())), len(ins) == 0)
-        cf = sut(check_fh, gen.build_fh(steps, case["kind"] if case["kind"] != "fh" else "list"))
+        cf = sut(check_fh, gen.build_fh(steps, case["kind"] if case["kind"] not in ("fh", "range_desc") else "list"))
         chk("check_fh", sut(lambda: vals(cf)), s)
         chk("check_fh_relative", sut(lambda: cf.is_relative), True)
     # caching must not conflate cutoffs
@@ -203,14 +208,16 @@ def oracle_rejects(case, ctx):
 @st.composite
 def conv_cases(draw, big=False):
     lim = 10 ** 6 if big else 50
-    kind = draw(st.sampled_from(["int", "list", "array", "array32", "index", "range", "fh"]))
+    kind = draw(st.sampled_from(["int", "list", "array", "array32", "index", "range", "range_desc", "fh"]))
     if kind == "int":
         steps = [draw(st.integers(-lim, lim))]
-    elif kind == "range":
+    elif kind in ("range", "range_desc"):
         a = draw(st.integers(-lim, lim))
         d = draw(st.integers(1, 5))
         k = draw(st.integers(1, 12))
         steps = [a + i * d for i in range(k)]
+        if kind == "range_desc":
+            steps = steps[::-1]  # RangeIndex with a negative step
     else:
         anchor = draw(st.sampled_from([0, 0, draw(st.integers(-lim, lim))]))
         steps = draw(st.lists(st.integers(-12, 12).map(lambda v: v + anchor), min_size=1, max_size=12, unique=True))
